@@ -96,15 +96,22 @@ def is_num(value):
 # (a)+(b) datetimeNew and the getters, direct calls
 #
 
-YEARS = [100, 101, 1899, 1900, 1970, 1999, 2000, 2023, 2024, 2100, 8999, 9000, 9998, 9999, 10000]
-MONTHS = list(range(-30, 41))
-DAYS_QUICK = [-10000, -9999, -366, -365] + list(range(-31, 63)) + [365, 366, 9999, 10000]
-DAYS_ALL = list(range(-10000, 10001))
-ALLDAYS = [('UTC', [100, 101, 1899, 1900, 1970, 1999, 2000, 2023, 2024, 2100, 8999, 9000]), ('Pacific/Chatham', [1900, 2024, 9999])]
-B_QUICK = [-5000, -1441, -1440, -61, -60, -25, -24, -1, 0, 1, 23, 24, 59, 60, 61, 999, 1000, 1001, 5000]
-B_THOROUGH = sorted(set(B_QUICK + [-4999, -1001, -1000, -999, -2, 2, 25, 58, 100, 1439, 1440, 1441, 4999]))
-TIME_SPECS = [((2024, 2, 29), 'float'), ((2023, 12, 31), 'int'), ((1900, 3, 1), 'float'), ((2024, 2, 29), 'int'), ((2023, 12, 31), 'float')]
-N_TIME_SPECS = {'quick': 3, 'thorough': 5}
+# Every list is ordered simplest-first (already normalised values, then by distance from the normal range), so that the first
+# recorded violation of a family is its smallest.
+def _simplest_first(values, low, high):
+    return sorted(values, key=lambda v: (max(low - v, v - high, 0), abs(v), v < 0))
+
+
+YEARS = [2024, 2023, 2000, 1999, 1970, 1900, 1899, 2100, 101, 100, 8999, 9000, 9998, 9999, 10000]
+INT_YEARS = [2024, 1900, 100, 9000, 9999]
+MONTHS = _simplest_first(range(-30, 41), 1, 12)
+DAYS_QUICK = _simplest_first([-10000, -9999, -366, -365] + list(range(-31, 63)) + [365, 366, 9999, 10000], 1, 28)
+DAYS_ALL = _simplest_first(range(-10000, 10001), 1, 28)
+ALLDAYS = [('UTC', [2024, 2023, 2000, 1999, 1970, 1900, 1899, 2100, 101, 100, 8999, 9000]), ('Pacific/Chatham', [2024, 1900, 9999])]
+B_QUICK = _simplest_first([-5000, -1441, -1440, -61, -60, -25, -24, -1, 0, 1, 23, 24, 59, 60, 61, 999, 1000, 1001, 5000], 0, 23)
+B_THOROUGH = _simplest_first(set(B_QUICK + [-4999, -1001, -1000, -999, -2, 2, 25, 58, 100, 1439, 1440, 1441, 4999]), 0, 23)
+TIME_SPECS = [((2024, 2, 29), 'float'), ((1900, 3, 1), 'int'), ((2023, 12, 31), 'float'), ((2024, 2, 29), 'int'), ((1900, 3, 1), 'float')]
+N_TIME_SPECS = {'quick': 2, 'thorough': 5}
 
 
 def check_new(case, acc):
@@ -268,15 +275,15 @@ def fam_new_script(arg):
 # (c) datetime + number, datetime - datetime
 #
 
-DATES = [(1, 1, 1), (100, 1, 1), (100, 12, 31), (1582, 10, 10), (1752, 9, 5), (1899, 12, 31), (1900, 2, 28), (1900, 3, 1),
+DATES = sorted([(1, 1, 1), (100, 1, 1), (100, 12, 31), (1582, 10, 10), (1752, 9, 5), (1899, 12, 31), (1900, 2, 28), (1900, 3, 1),
          (1969, 12, 31), (1970, 1, 1), (1986, 1, 1), (1999, 12, 31), (2000, 2, 29), (2000, 3, 1), (2001, 9, 9), (2023, 2, 28),
          (2023, 3, 12), (2023, 12, 31), (2024, 1, 1), (2024, 2, 28), (2024, 2, 29), (2024, 3, 1), (2024, 3, 10), (2024, 3, 31),
          (2024, 4, 7), (2024, 9, 29), (2024, 10, 6), (2024, 10, 27), (2024, 11, 3), (2024, 12, 31), (2025, 1, 1), (2037, 12, 31),
          (2038, 1, 19), (2038, 1, 20), (2100, 2, 28), (2100, 3, 1), (2400, 2, 29), (8999, 12, 31), (9000, 1, 1), (9000, 12, 31),
-         (9999, 12, 31)]
+         (9999, 12, 31)], key=lambda d: (abs(d[0] - 2024), d))     # nearest to the present first
 TIMES = [(0, 0, 0, 0), (1, 59, 59, 999), (2, 30, 0, 0), (12, 0, 0, 1), (23, 59, 59, 999)]
 _POS = sorted({1, 999, 1000, 86399999, 86400000} | {10 ** k + e for k in range(13) for e in (-1, 0, 1)} - {0})
-OFFSETS_MS = [0] + [s * p for p in _POS for s in (1, -1)]
+OFFSETS_MS = [0] + [s * p for p in _POS for s in (1, -1)]        # by magnitude
 ARITH_SOURCE = 'return arrayNew(dd + nn, nn + dd, (dd + nn) - dd, dd - (dd + nn))\n'
 
 
@@ -753,11 +760,13 @@ def families(tier):
     quick = tier == 'quick'
     fams = []
     # (a) dates grid: all zones, both spellings
-    shards = [('new_dates', z, sp, ys, MONTHS, DAYS_QUICK) for z in ZONES for sp in ('float', 'int') for ys in split(YEARS, 2)]
+    iyears = INT_YEARS if quick else YEARS
+    shards = [('new_dates', z, sp, ys, MONTHS, DAYS_QUICK) for z in ZONES for sp, yy in (('float', YEARS), ('int', iyears))
+              for ys in split(yy, 3 if len(yy) > 5 else 1)]
     fams.append(Family('new_dates', fam_new_dates, shards,
-                       f'{len(ZONES)} zones x float/int spelling x years {YEARS} x months -30..40 x {len(DAYS_QUICK)} days '
-                       '(-10000, -9999, -366, -365, -31..62, 365, 366, 9999, 10000); 7 getters on every result',
-                       expected=len(ZONES) * 2 * len(YEARS) * len(MONTHS) * len(DAYS_QUICK)))
+                       f'{len(ZONES)} zones x (float spelling: years {YEARS}; int spelling: years {iyears}) x months -30..40 x '
+                       f'{len(DAYS_QUICK)} days (-10000, -9999, -366, -365, -31..62, 365, 366, 9999, 10000); 7 getters on every result',
+                       expected=len(ZONES) * (len(YEARS) + len(iyears)) * len(MONTHS) * len(DAYS_QUICK)))
     if not quick:
         shards = [('new_alldays', z, 'float', [y], ms, DAYS_ALL) for z, ys in ALLDAYS for y in ys for ms in split(MONTHS, 8)]
         fams.append(Family('new_alldays', fam_new_dates, shards,
